@@ -423,6 +423,106 @@ class MultiAxisCache(Contract):
         yield "answers-like-a-freshly-built-grouped-axis", list(result.values) == list(fresh.values) and int(result.size) == int(fresh.size)
 
 
+GROUPED_OPS = ("ix-slice", "ix-slice-step", "ix-list", "ix-scalar", "take_axis", "compress_axis", "dropna", "diff", "cumsum", "sort_axis",
+               "mean", "transpose", "copy", "axis-slice", "is_monotonic", "add-itself", "unflatten")
+
+
+class GroupedAxisLikeFresh(Contract):
+    """BOUNDED STAND-IN ONLY (never counted as proved).  An array that went through flatten() -- its only axis a grouped axis
+    whose labels are the tuples of member labels -- answers further operations exactly like a freshly constructed 1-d array
+    with the same values and the same tuple labels: position slices, lists and scalars, take_axis, compress_axis, dropna, diff,
+    cumsum, sort_axis, mean, transpose, copy, slicing the axis object, is_monotonic, a + a; and unflatten() restores the
+    original.  (The grouped axis is a second Axis class with its own constructor: every attribute the inherited methods read
+    must exist on it.)  Member labels of length 1-3 / 1-2, NaN patterns of the family.  [C05]"""
+    target = "dimarray.core.axes:MultiAxis"
+    props = ("C05",)
+    native_only = True
+
+    def cases(self, tier):
+        for op in GROUPED_OPS:
+            yield {"name": op, "op": op}
+
+    def setup(self, S, case):
+        L0, L1 = S.array1d("m0", "f"), S.array1d("m1", "O")
+        assume_order(S, L0, "unique")
+        assume_order(S, L1, "unique")
+        S.assume(S.n(L0) >= 1, "first member non-empty")
+        S.assume(S.n(L1) >= 1, "second member non-empty")
+        return {"L": [L0, L1], "data": S.arraynd("data", "f", (S.n(L0), S.n(L1))), "p": S.int("p"), "q": S.array1d("q", "I")}
+
+    def _apply(self, env, a):
+        import numpy as np
+        op = env["case"]["op"]
+        n = a.shape[0]
+        p = int(env["p"]) % n
+        q = [int(t) % n for t in np.asarray(env["q"])]
+        if op == "ix-slice":
+            return a.ix[p:]
+        if op == "ix-slice-step":
+            return a.ix[::2]
+        if op == "ix-list":
+            return a.ix[q] if q else a.ix[[0]]
+        if op == "ix-scalar":
+            return a.ix[p]
+        if op == "take_axis":
+            return a.take_axis(q or [0], indexing="position")
+        if op == "compress_axis":
+            return a.compress_axis(np.arange(n) % 2 == p % 2)
+        if op == "dropna":
+            return a.dropna()
+        if op == "diff":
+            return a.diff()
+        if op == "cumsum":
+            return a.cumsum()
+        if op == "sort_axis":
+            return a.sort_axis()
+        if op == "mean":
+            return a.mean()
+        if op == "transpose":
+            return a.T
+        if op == "copy":
+            return a.copy()
+        if op == "axis-slice":
+            return a.axes[0][p:]
+        if op == "is_monotonic":
+            return bool(a.axes[0].is_monotonic())
+        if op == "add-itself":
+            return a + a
+        raise AssertionError(op)
+
+    def call(self, fn, env):
+        import numpy as np
+        S = env["S"]
+        L0, L1 = np.asarray(env["L"][0], dtype=float), np.asarray(env["L"][1])
+        a = S.da.DimArray(np.array(env["data"], dtype=float), axes=[("g0", L0.copy()), ("g1", L1.copy())])
+        f = a.flatten()
+        env["orig"], env["flat"] = a, f
+        if env["case"]["op"] == "unflatten":
+            return f.unflatten()
+        return self._apply(env, f)
+
+    def post(self, S, case, env, result):
+        import numpy as np
+        f, a = env["flat"], env["orig"]
+        same = lambda x, y: np.shape(x) == np.shape(y) and bool(np.all((np.asarray(x) == np.asarray(y)) | (np.isnan(np.asarray(x, dtype=float)) & np.isnan(np.asarray(y, dtype=float)))))
+        labs = lambda ax: [tuple(t) if isinstance(t, (tuple, list, np.ndarray)) else t for t in list(ax.values)]
+        if case["op"] == "unflatten":
+            yield "unflatten-restores-the-original", S.is_dimarray(result) and tuple(result.dims) == ("g0", "g1") and same(result.values, a.values) and \
+                all(list(r.values) == list(o.values) for r, o in zip(result.axes, a.axes))
+            return
+        fresh = S.da.DimArray(np.array(f.values, dtype=float), axes=[(f.dims[0], [tuple(t) for t in f.axes[0].values])])
+        expected = self._apply(env, fresh)
+        if S.is_dimarray(expected):
+            yield "answers-like-a-freshly-constructed-array", S.is_dimarray(result) and tuple(result.dims) == tuple(expected.dims) and same(result.values, expected.values) \
+                and all(labs(r) == labs(e) for r, e in zip(result.axes, expected.axes))
+            for c in wf_clauses(S, result):
+                yield c
+        elif hasattr(expected, "values") and hasattr(expected, "name"):      # an Axis
+            yield "answers-like-a-freshly-constructed-array", hasattr(result, "values") and result.name == expected.name and labs(result) == labs(expected)
+        else:
+            yield "answers-like-a-freshly-constructed-array", same(result, expected)
+
+
 # ---- every DimArray RETURNED by an operation under contract is well-formed ---------------------------------------------
 def wf_only(cls):
     """the contract `cls` with its postcondition replaced by `every returned DimArray is well-formed` (same cases, same setup,
